@@ -21,7 +21,12 @@ RULE = ('cross product cors_allowed_origins(6 forms) x cors_credentials(2) x '
         'poll, post, upgrade, options) x server(2). thorough = whole grid, '
         'quick = seeded sample. non-trivial = the Origin header is present '
         '(refusal or header oracle decided something); distinct = distinct '
-        'cells')
+        'cells; plus seeded small mutations of allowed origins (1200 quick, '
+        '120000 thorough), two Origin header lines (allowed + disallowed, '
+        'both orders), and sequences of 3..8 requests on one server reached '
+        'under three host names / with a predicate whose answer changes; '
+        'servers: threaded, asyncio behind ASGI, asyncio behind aiohttp '
+        '(incl. a TLS listener)')
 ASSUMPTIONS = ['own origin = scheme://Host with the scheme of the gateway '
                '(wsgi.url_scheme / ASGI scope scheme); forwarded origin = '
                'first entries of X-Forwarded-Proto/Host',
